@@ -34,6 +34,9 @@ func genC05(tier string, rng *rand.Rand, shard, nshards int, emit emitter) {
 	}
 }
 
+// dupNamed: genFieldList also gives a definition twice under one name (only the split oracle counts multiplicities)
+var dupNamed = false
+
 var servers = []string{"a:502", "b_1:502", "b:502", "tcp://c_1:1", "x"}
 
 type genField struct {
@@ -123,6 +126,11 @@ func genFieldList(rng *rand.Rand, wantCoils bool, allowInvalid bool) []genField 
 		f.order = orders[rng.Intn(len(orders))]
 		if f.typ == 13 {
 			f.len = strLen(rng)
+		} else if rng.Intn(8) == 0 {
+			f.len = 1 + rng.Intn(12) // an attribute that means nothing for this type
+			if rng.Intn(4) == 0 {
+				f.len = 200 + rng.Intn(56)
+			}
 		}
 		// address: cluster around base with gaps at the limit
 		var off int
@@ -178,6 +186,21 @@ func genFieldList(rng *rand.Rand, wantCoils bool, allowInvalid bool) []genField 
 			}
 		}
 		fs = append(fs, f)
+		if dupNamed && rng.Intn(12) == 0 {
+			// the same definition given twice (same name, device, address), possibly read as another type of the same size
+			d := fs[rng.Intn(len(fs))]
+			if rng.Intn(2) == 0 {
+				for _, grp := range [][]int{{1, 2, 3, 4, 5, 6}, {7, 8, 11}, {9, 10, 12}} {
+					for _, t := range grp {
+						if t == d.typ {
+							d.typ = grp[rng.Intn(len(grp))]
+						}
+					}
+				}
+			}
+			fs = append(fs, d)
+			i++
+		}
 	}
 	if rng.Intn(5) == 0 {
 		// point names as a plant uses them: unique on one device, the same on every device ("temperature" on each boiler)
@@ -229,7 +252,9 @@ func genC06(tier string, rng *rand.Rand, shard, nshards int, emit emitter) {
 			continue
 		}
 		t := rng.Intn(8)
+		dupNamed = true
 		fs := genFieldList(rng, t < 4, true)
+		dupNamed = false
 		emit(fmt.Sprintf("split %d %s", t, fieldsToken(fs)))
 	}
 }
